@@ -69,6 +69,35 @@ DUP_LEX_DATA = json.dumps(json.loads(DATA) + [
 ])
 
 
+# lists that name a value twice, and the same validation listed twice in a level and under two levels: legal spellings
+# in which something may be rebuilt from a set or a map
+REPEATED_VALUES_PROFILE = """#%Validation Profile 1.0
+profile: repeated values
+prefixes:
+  ex: http://example.org/ns#
+violation:
+  - methods
+  - methods
+  - tags
+warning:
+  - methods
+validations:
+  methods:
+    targetClass: ex.T
+    message: plain0 must be a method
+    propertyConstraints:
+      ex.plain0:
+        in: [ get, put, post, delete, patch, head, options, get, trace, put ]
+  tags:
+    targetClass: ex.T
+    message: tags
+    propertyConstraints:
+      ex.plain0:
+        containsAll: [ b, a, c, b, d, e, a ]
+        containsSome: [ x, y, z, x, w, v, u, y ]
+"""
+
+
 def run(tier):
     t0 = time.time()
     V = vlib.Verdict("C06")
@@ -88,6 +117,7 @@ def run(tier):
         for d in (1, 2, 3):
             inputs.append(("quant-s%d-d%d" % (s, d), quantified_profile(s, d, 2), DATA))
     inputs.append(("duplicate-lexical-entries", quantified_profile(2, 1, 1), DUP_LEX_DATA))
+    inputs.insert(0, ("repeated-list-values", REPEATED_VALUES_PROFILE, DATA))
     inputs.append(("rich", c15.RICH_PROFILE, c15.RICH_DATA))
     inputs.append(("ok", corpus.OK_PROFILE, c09.DOCS["fail3"]))
     inputs.append(("nested", corpus.OK_PROFILE_NESTED, c09.DOCS["failNested"]))
